@@ -425,6 +425,13 @@ impl UntypedProgram {
             // they occur in the source code
             sorted_const_defs.sort_by_key(|(_name, const_def)| const_def.meta);
             for (const_name, const_def) in sorted_const_defs {
+                // (only bools and numbers can be written as const exprs; nothing that follows can
+                // deal with a const of another or of an unknown type)
+                if let Err(e) = expect_bool_or_num_type(&const_def.ty, const_def.meta) {
+                    let mut errors: Vec<TypeError> = e.into_iter().flatten().collect();
+                    errors.sort();
+                    return Err(errors);
+                }
                 fn check_const_expr(
                     value: &ConstExpr,
                     const_def: &ConstDef,
